@@ -443,6 +443,51 @@ def import_style(tree):
     return tree
 
 
+class InTuple(ast.NodeTransformer):
+    """x in ["a", "b"] -> x in ("a", "b")   (membership tests against a list display of constants)"""
+    def visit_Compare(self, n):
+        self.generic_visit(n)
+        if len(n.ops) == 1 and isinstance(n.ops[0], (ast.In, ast.NotIn)) and isinstance(n.comparators[0], ast.List) \
+                and all(isinstance(e, ast.Constant) for e in n.comparators[0].elts):
+            n.comparators = [ast.Tuple(elts=n.comparators[0].elts, ctx=ast.Load())]
+        return n
+
+
+class NotNone(ast.NodeTransformer):
+    """x is not None -> not (x is None)"""
+    def visit_Compare(self, n):
+        self.generic_visit(n)
+        if len(n.ops) == 1 and isinstance(n.ops[0], ast.IsNot) and isinstance(n.comparators[0], ast.Constant) and n.comparators[0].value is None:
+            return ast.UnaryOp(op=ast.Not(), operand=ast.Compare(left=n.left, ops=[ast.Is()], comparators=n.comparators))
+        return n
+
+
+def str_constants(tree):
+    """method == "cov_mm" -> method == _S_COV_MM with `_S_COV_MM = "cov_mm"` at module level (strings compared with == / != at least twice)"""
+    counts = {}
+    for n in ast.walk(tree):
+        if isinstance(n, ast.Compare) and len(n.ops) == 1 and isinstance(n.ops[0], (ast.Eq, ast.NotEq)) and isinstance(n.comparators[0], ast.Constant) \
+                and isinstance(n.comparators[0].value, str) and n.comparators[0].value.isidentifier():
+            counts[n.comparators[0].value] = counts.get(n.comparators[0].value, 0) + 1
+    names = {v: "_S_" + v.upper() for v, c in counts.items() if c >= 2}
+    if not names:
+        return tree
+
+    class R(ast.NodeTransformer):
+        def visit_Compare(self, n):
+            self.generic_visit(n)
+            if len(n.ops) == 1 and isinstance(n.ops[0], (ast.Eq, ast.NotEq)) and isinstance(n.comparators[0], ast.Constant) and n.comparators[0].value in names:
+                n.comparators = [ast.Name(id=names[n.comparators[0].value], ctx=ast.Load())]
+            return n
+    tree = R().visit(tree)
+    k = 0
+    while k < len(tree.body) and (isinstance(tree.body[k], (ast.Import, ast.ImportFrom)) or (isinstance(tree.body[k], ast.Expr) and isinstance(tree.body[k].value, ast.Constant))):
+        k += 1
+    for v, nm in sorted(names.items()):
+        tree.body.insert(k, ast.Assign(targets=[ast.Name(id=nm, ctx=ast.Store())], value=ast.Constant(value=v)))
+    return tree
+
+
 for p in sorted(dst.rglob("*.py")):
     if "plot" in p.name or "pyvista" in p.name or "mpl" in p.name:
         continue
@@ -502,6 +547,12 @@ for p in sorted(dst.rglob("*.py")):
         tree = AttrLocal().visit(tree)
     elif kind == "importstyle":
         tree = import_style(tree)
+    elif kind == "intuple":
+        tree = InTuple().visit(tree)
+    elif kind == "notnone":
+        tree = NotNone().visit(tree)
+    elif kind == "strconst":
+        tree = str_constants(tree)
     elif kind == "kwargs":
         sigs = {f.name: [a.arg for a in f.args.posonlyargs + f.args.args] for f in tree.body if isinstance(f, ast.FunctionDef) and not f.args.vararg}
         tree = KwArgs(sigs).visit(tree)
